@@ -155,6 +155,39 @@ def run_case(case):
                 if not np.array_equal(np.asarray(a1), keep[k], equal_nan=True) or (np.size(a1) and np.shares_memory(a1, a2)):
                     bad.append((name + '/result-overwritten', '%s: the face values returned for one field changed (or share storage) when %s was evaluated for another field on the same grid (axis %d)' % (name, name, k)))
             cov['results_alive_probes'] = cov.get('results_alive_probes', 0) + 1
+        # one variable, evaluated, given a new field, evaluated again (a coefficient k(phi) re-averaged in every sweep of a loop):
+        # the second result is the mean of the field the variable holds now, i.e. bit for bit what a fresh variable holding the
+        # same numbers gives - whichever supported way the new field came in
+        inner = tuple(slice(1, -1) for _ in range(g.nd))
+        for name, f in flist:
+            how = str(rng.choice(['update_value', 'setter', 'slice', 'kept-view', 'update_value-twice']))
+            with np.errstate(all='ignore'):
+                phi = pf.CellVariable(m, full.copy())
+                f(phi)
+                now = other.copy()
+                if how.startswith('update_value'):
+                    phi.update_value(pf.CellVariable(m, other.copy()))
+                    if how.endswith('twice'):
+                        f(phi)
+                        now = other * 0.25 + 2.0
+                        phi.update_value(pf.CellVariable(m, now.copy()))
+                else:
+                    now = full.copy()
+                    now[inner] = other[inner]
+                    if how == 'setter':
+                        phi.value = other[inner]
+                    elif how == 'slice':
+                        phi.value[...] = other[inner]
+                    else:
+                        v_ = phi.value
+                        f(phi)
+                        v_[...] = other[inner]
+                got = gen.facevar_arrays(f(phi), g.nd)
+                ref = gen.facevar_arrays(f(pf.CellVariable(m, now.copy())), g.nd)
+            for k in range(g.nd):
+                if not np.array_equal(np.asarray(got[k]), np.asarray(ref[k]), equal_nan=True):
+                    bad.append((name + '/stale-after-new-field', '%s of a variable that was averaged before and then received a new field (%s) is not the mean of the field it holds now (axis %d)' % (name, how, k)))
+            cov['reaveraged_after_edit:' + how] = cov.get('reaveraged_after_edit:' + how, 0) + 1
     # locality by basis perturbation (a few random cells)
     if case.get('locality', True):
         phi = pf.CellVariable(m, full.copy())
